@@ -539,6 +539,18 @@ pub fn run(report: &mut Report, replay: Option<&str>) {
                 }
             };
             r.hist("program_source", source);
+            // generator health: which source produces programs whose original run is not error-free
+            if source.starts_with("targeted") {
+                if let Ok(block) = exec::parse(&code) {
+                    let outcome = exec::run_block(&mut model, rulecheck::LEVEL, &block);
+                    if !exec::outcome_ok(&outcome) {
+                        r.hist("targeted_program_not_error_free", source);
+                        if let Ok(dir) = std::env::var("C16_TRACE_DIR") {
+                            let _ = std::fs::write(format!("{}/bad-{}-{}.lua", dir, tid, n), format!("{}\n-- {}", code, outcome));
+                        }
+                    }
+                }
+            }
             if doubles_a_string(&code) {
                 r.count("skipped_program_doubling_a_string_in_a_loop", 1);
                 continue;
